@@ -84,9 +84,20 @@ func (e *Env) unguardedDeref(info *types.Info, fd *ast.FuncDecl, obj types.Objec
 		id, ok := x.(*ast.Ident)
 		return ok && info.Uses[id] == obj
 	}
-	nilTest := func(cond ast.Expr, op token.Token) bool {
+	var nilTest func(cond ast.Expr, op token.Token) bool
+	nilTest = func(cond ast.Expr, op token.Token) bool {
+		if p, ok := cond.(*ast.ParenExpr); ok {
+			return nilTest(p.X, op)
+		}
 		be, ok := cond.(*ast.BinaryExpr)
-		return ok && be.Op == op && ((isObj(be.X) && info.Types[be.Y].IsNil()) || (isObj(be.Y) && info.Types[be.X].IsNil()))
+		if !ok {
+			return false
+		}
+		// `a && L != nil` guards the body; `a || L == nil` guards what follows a leaving body
+		if (op == token.NEQ && be.Op == token.LAND) || (op == token.EQL && be.Op == token.LOR) {
+			return nilTest(be.X, op) || nilTest(be.Y, op)
+		}
+		return be.Op == op && ((isObj(be.X) && info.Types[be.Y].IsNil()) || (isObj(be.Y) && info.Types[be.X].IsNil()))
 	}
 	leaves := func(list []ast.Stmt) bool {
 		if len(list) == 0 {
@@ -126,7 +137,9 @@ func (e *Env) unguardedDeref(info *types.Info, fd *ast.FuncDecl, obj types.Objec
 				if s.Init != nil {
 					checkExpr(s.Init, guarded)
 				}
-				checkExpr(s.Cond, guarded)
+				if !nilTest(s.Cond, token.NEQ) {
+					checkExpr(s.Cond, guarded)
+				}
 				switch {
 				case nilTest(s.Cond, token.NEQ):
 					walk(s.Body.List, true)
@@ -208,14 +221,10 @@ var indexConfirmed = map[string]map[indexClass]int{
 	"(*fileDecorator).findNode":       {"var": 1},
 	// f.fragments[i] loop-bounded; frags[stage] on a [2] array with stage ∈ {0, 1}
 	"(*fileDecorator).findIndentedComments": {"var": 7},
-	// debug helper, not on the parse path
-	"(fileDecorator).debug": {"var": 1},
 	// decs[len(decs)-1] under len(decs) > 0
 	"appendNewLine": {"last": 1},
 	// v[len(v)-1] after `if len(v) == 0 { continue }`
 	"mergeDecorations": {"last": 2},
-	// path[i+len("vendor/"):] with i from LastIndex / 0
-	"stripVendor": {"var": 1},
 }
 
 func (e *Env) RIndex() {
@@ -249,7 +258,9 @@ func (e *Env) RIndex() {
 			case *types.Slice, *types.Array:
 				return true
 			case *types.Basic:
-				return u.Info()&types.IsString != 0
+				// string slicing (stripVendor, debug output) is left out of the inventory: the
+				// offsets there come from strings.Index/LastIndex on the same string
+				return false
 			case *types.Pointer:
 				_, isArr := u.Elem().Underlying().(*types.Array)
 				return isArr
@@ -395,4 +406,108 @@ func (e *Env) RIndex() {
 		}
 	}
 	e.Run.Analysed("index/slice expressions on the decorate path", total)
+}
+
+// RNilResults: a helper of the attachment code that can return a nil pointer without an
+// accompanying ok/found result must have that result nil-checked at every call site before it is
+// dereferenced.
+func (e *Env) RNilResults() {
+	pkg := e.Prog.Pkg(load.PkgDecorator)
+	info := pkg.TypesInfo
+	// callee → index of the nil-able pointer result
+	nilable := map[types.Object]int{}
+	for _, fd := range load.AllFuncDecls(pkg) {
+		if fd.Body == nil || fd.Type.Results == nil || isRestorePath(fd) {
+			continue
+		}
+		var resTypes []types.Type
+		var resObjs []types.Object
+		for _, r := range fd.Type.Results.List {
+			k := len(r.Names)
+			if k == 0 {
+				k = 1
+			}
+			for i := 0; i < k; i++ {
+				resTypes = append(resTypes, info.TypeOf(r.Type))
+				if i < len(r.Names) {
+					resObjs = append(resObjs, info.Defs[r.Names[i]])
+				} else {
+					resObjs = append(resObjs, nil)
+				}
+			}
+		}
+		hasBool := false
+		for _, t := range resTypes {
+			if b, ok := t.Underlying().(*types.Basic); ok && b.Kind() == types.Bool {
+				hasBool = true
+			}
+		}
+		if hasBool {
+			continue
+		}
+		for i, t := range resTypes {
+			if _, isPtr := t.Underlying().(*types.Pointer); !isPtr {
+				continue
+			}
+			mayNil := false
+			ast.Inspect(fd.Body, func(n ast.Node) bool {
+				if _, isLit := n.(*ast.FuncLit); isLit {
+					return false
+				}
+				rs, ok := n.(*ast.ReturnStmt)
+				if !ok {
+					return true
+				}
+				if len(rs.Results) == 0 && resObjs[i] != nil {
+					mayNil = true // bare return of a named result (zero unless assigned on every path)
+				}
+				if i < len(rs.Results) && info.Types[rs.Results[i]].IsNil() {
+					mayNil = true
+				}
+				return true
+			})
+			if mayNil {
+				nilable[info.Defs[fd.Name]] = i
+			}
+		}
+	}
+	n := 0
+	for _, fd := range load.AllFuncDecls(pkg) {
+		if fd.Body == nil {
+			continue
+		}
+		ast.Inspect(fd.Body, func(nd ast.Node) bool {
+			as, ok := nd.(*ast.AssignStmt)
+			if !ok || len(as.Rhs) != 1 {
+				return true
+			}
+			call, ok := as.Rhs[0].(*ast.CallExpr)
+			if !ok {
+				return true
+			}
+			fn := calleeFunc(info, call)
+			if fn == nil {
+				return true
+			}
+			idx, ok := nilable[fn]
+			if !ok || idx >= len(as.Lhs) {
+				return true
+			}
+			id, ok := as.Lhs[idx].(*ast.Ident)
+			if !ok || id.Name == "_" {
+				return true
+			}
+			obj := info.Defs[id]
+			if obj == nil {
+				obj = info.Uses[id]
+			}
+			n++
+			bad := e.unguardedDeref(info, fd, obj, as)
+			e.Run.Check("R-NILRESULT", fmt.Sprintf("%s: %s (may be nil, from %s) is checked before use", load.FuncName(fd), id.Name, fn.Name()), e.Prog.Pos(as.Pos()), bad == token.NoPos,
+				fmt.Sprintf("%s returns a nil %s on some paths and has no ok/found result; %s is dereferenced at %s without a dominating nil test: a panic on inputs that take that path", fn.Name(), id.Name, id.Name, e.Prog.Pos(bad)))
+			return true
+		})
+	}
+	e.Run.Analysed("call sites of nil-able helpers", n)
+	e.Run.Floor("R-NILRESULT", "call sites of helpers with a nil-able pointer result", n, 1)
 }
